@@ -15,14 +15,23 @@ LEVEL_TEXT = ('Static lockstep rule on the view arrays of posterior(): the same 
               ' Plus a path-wise symbolic evaluation of the repeat counts (stochastic-rounding form, order of the gathered rows) and the normalisation of the returned weights.')
 
 
+def _is_uniform_draw(e):
+    """`<generator>.random(..)`: on the sampler's generator or on a local (copy of a) generator."""
+    d = dotted(e.func) if isinstance(e, ast.Call) else None
+    return bool(d) and (d == 'rng.random' or d.endswith('.rng.random'))
+
+
 def run(ctx):
     rule_L5(ctx)
     ctx.rule('F1', 'purity: posterior() writes no sampler state and mutates no alias of it; its '
              'rng draw is control dependent on the equal_weight parameter')
     f = ctx.program.func('Sampler.posterior')
-    pg = purity(ctx, f, 'F1')
+    purity(ctx, f, 'F1')
+    cfg0 = cfg_of(f)
+    udraws = [c for c in walk_no_nested(f.node) if _is_uniform_draw(c) and cfg0.has(c)]
     ctx.ob('F1', 'Sampler.posterior:draw-is-parameter-guarded',
-           bool(pg) and all(g == 'equal_weight' for _, _, g in pg), f.where(),
+           bool(udraws) and all(cfg0.has_fact(cfg0.node_of(c).id, 'equal_weight', True)
+                                for c in udraws), f.where(),
            'the stochastic rounding draw happens only under equal_weight=True')
     # def-use dependencies of the repeat counts (weak: the arithmetic is not decided)
     ctx.rule('Q4', 'the repeat counts depend on the weights, on equal_weight_boost, on a floor '
@@ -62,16 +71,14 @@ def run(ctx):
         'weights': lambda e: isinstance(e, ast.Name) and e.id == wname,
         'boost': lambda e: isinstance(e, ast.Name) and e.id == 'equal_weight_boost',
         'floor': lambda e: isinstance(e, ast.Call) and dotted(e.func) == 'np.floor',
-        'uniform-draw': lambda e: isinstance(e, ast.Call) and dotted(e.func) ==
-        'self.rng.random',
+        'uniform-draw': _is_uniform_draw,
     }
     for k, pred in deps.items():
         ok = _depends(cfg, nid, sel, pred)
         ctx.ob('Q4', 'Sampler.posterior:repeats-depend-on(%s)' % k, ok, f.where(reps[0].ast),
                'the repeat counts depend on %s' % k if ok else
                'the repeat counts do not depend on %s' % k)
-    draws = [c for c in walk_no_nested(f.node) if isinstance(c, ast.Call) and
-             dotted(c.func) == 'self.rng.random']
+    draws = [c for c in walk_no_nested(f.node) if _is_uniform_draw(c)]
     for c in draws:
         dt = [k.value for k in c.keywords if k.arg == 'dtype']
         ok = not dt or dotted(dt[0]) in ('np.float64', 'float', 'np.double')
